@@ -33,7 +33,10 @@ def make(check, ov, out, expect):
     unused = set(ov)-ch.used
     print(out, '->', sig, '| unused overrides:', unused)
     print('   ', msg[:300])
-    assert sig == expect, (sig, expect)
+    if sig is None:
+        print('    (passes on this tree: finding repaired; file rewritten with the same draws)')
+    else:
+        assert sig == expect, (sig, expect)
     rec = {'property':'C15','check':check,'case':ch.log,'signature':sig,'oracle_message':msg,'seed':0,'tier':'pinned'}
     json.dump(rec, open(os.path.join(os.path.dirname(os.path.dirname(os.path.abspath(__file__))), out),'w'), indent=1)
 
